@@ -145,7 +145,7 @@ designator(struct scope *s, struct initparser *p)
 			name = expect(TIDENT, "for member designator");
 			if (!findmember(p, name))
 				error(&tok.loc, "%s has no member named '%s'", t->kind == TYPEUNION ? "union" : "struct", name);
-			free(name);
+			/* the spelling may belong to a macro's replacement list, so it is not freed */
 			break;
 		default:
 			expect(TASSIGN, "after designator");
